@@ -798,4 +798,615 @@ theorem never_fails_the_stroke_assertion (wt : K → K) (endTime now : K) (g : G
 
 end Runs
 
+/-! ### … nor does the row index ever run off the row -/
+
+section NoIndexError
+variable {K : Type} [Num K]
+
+theorem snrFinish_rows (b : Bot) (o : List Out) :
+    (Bot.snrFinish b o).1.openingRow = b.openingRow ∧ (Bot.snrFinish b o).1.rounds = b.rounds ∧
+    (Bot.snrFinish b o).1.tower = b.tower := by
+  unfold Bot.snrFinish
+  split
+  · exact ⟨rfl, rfl, rfl⟩
+  · have hf := generateNextRow_fields b
+    rcases hq : b.generateNextRow with ⟨b3, o9⟩
+    rw [hq] at hf
+    simp only [] at hf ⊢
+    split <;> exact ⟨hf.2.1, hf.2.2.1, hf.2.2.2.2⟩
+
+/-- `start_next_row` leaves the opening row, rounds and the view of the tower alone. -/
+theorem startNextRow_rows (b : Bot) (f : Bool) :
+    (b.startNextRow f).1.openingRow = b.openingRow ∧ (b.startNextRow f).1.rounds = b.rounds ∧
+    (b.startNextRow f).1.tower = b.tower := by
+  unfold Bot.startNextRow
+  have hp := snrPrep_fields b
+  split
+  · exact ⟨hp.2.1, hp.2.2.1, hp.2.2.2.2.1⟩
+  · simp only []
+    split
+    · obtain ⟨h1, h2, h3⟩ := snrFinish_rows (b.snrPrep.resetGen.withCtl _) _
+      exact ⟨h1.trans hp.2.1, h2.trans hp.2.2.1, h3.trans hp.2.2.2.2.1⟩
+    · obtain ⟨h1, h2, h3⟩ := snrFinish_rows (b.snrPrep.withCtl _) _
+      exact ⟨h1.trans hp.2.1, h2.trans hp.2.2.1, h3.trans hp.2.2.2.2.1⟩
+
+theorem generateNextRow_no_index (b : Bot) : Out.crash "IndexError" ∉ (b.generateNextRow).2 := by
+  unfold Bot.generateNextRow
+  split
+  · simp
+  · split
+    · simp
+    · split <;> simp
+
+theorem snrFinish_no_index (b : Bot) (o4 : List Out) (h : Out.crash "IndexError" ∉ o4) :
+    Out.crash "IndexError" ∉ (Bot.snrFinish b o4).2 := by
+  unfold Bot.snrFinish
+  split
+  · exact h
+  · have hg := generateNextRow_no_index b
+    rcases hq : b.generateNextRow with ⟨b3, o9⟩
+    rw [hq] at hg
+    simp only [] at hg ⊢
+    split
+    · simp only [List.mem_append, not_or]; exact ⟨h, hg⟩
+    · simp only [List.mem_append, not_or]
+      refine ⟨⟨h, hg⟩, ?_⟩
+      intro hm
+      unfold Bot.expectAll at hm
+      simp only [List.mem_map] at hm
+      obtain ⟨p, _, hp⟩ := hm
+      cases hp
+
+theorem startNextRow_no_index (b : Bot) (f : Bool) : Out.crash "IndexError" ∉ (b.startNextRow f).2 := by
+  unfold Bot.startNextRow
+  split
+  · simp
+  · simp only []
+    apply snrFinish_no_index
+    split
+    · exact makeCalls_no_crash _ _ _
+    · simp
+
+theorem tickEnd_no_index (b : Bot) (bell : Nat) (uc : Bool) : Out.crash "IndexError" ∉ (b.tickEnd bell uc).2 := by
+  unfold Bot.tickEnd
+  simp only []
+  have ho1 : Out.crash "IndexError" ∉ (if uc then [] else b.ringBell bell) := by
+    split
+    · simp
+    · exact ringBell_no_crash _ _ _
+  have ho2 : Out.crash "IndexError" ∉ (if b.place == 0 then b.makeCalls b.calls else []) := by
+    split
+    · exact makeCalls_no_crash _ _ _
+    · simp
+  split
+  · simp only [List.mem_append, not_or]
+    exact ⟨⟨ho1, ho2⟩, startNextRow_no_index _ false⟩
+  · simp only [List.mem_append, not_or]
+    exact ⟨ho1, ho2⟩
+
+theorem tickEnd_rows (b : Bot) (bell : Nat) (uc : Bool) :
+    (b.tickEnd bell uc).1.openingRow = b.openingRow ∧ (b.tickEnd bell uc).1.rounds = b.rounds ∧
+    (b.tickEnd bell uc).1.tower = b.tower := by
+  unfold Bot.tickEnd
+  simp only []
+  split
+  · exact startNextRow_rows ({ b with place := b.place + 1 } : Bot) false
+  · exact ⟨rfl, rfl, rfl⟩
+
+/-- The first row of a touch is the opening row: nothing is asked of the generator, nothing can be raised. -/
+theorem arm_start_no_crash (b : Bot) (e : String) : Out.crash e ∉ (b.armLookTo.startNextRow true).2 := by
+  generalize hd : b.armLookTo = d
+  have hro : d.ringingOpening = true := by subst hd; rfl
+  have hrl : d.roundsLeft = (if !b.upDownIn then none else if d.gen.startHand then some 2 else some 3) := by
+    subst hd; simp [Bot.armLookTo, Generated.upDownInHand, Generated.upDownInBack]
+  have hne : startsNow d.ctl = false := by
+    simp only [startsNow, Bot.ctl, hrl]
+    cases b.upDownIn <;> simp
+    split <;> simp
+  have hstep : ctlStep d.ctl (d.ctlIn true) = .ok (ctlNext d.ctl (d.ctlIn true)) false := by
+    simp [ctlStep, assertFails, hne]
+  unfold Bot.startNextRow
+  rw [hstep]
+  simp only [Bool.false_and, Bool.false_eq_true, if_false]
+  have hopen : (d.snrPrep.withCtl (ctlNext d.ctl (d.ctlIn true))).ringingOpening = true := by
+    show (ctlNext d.ctl (d.ctlIn true)).ringingOpening = true
+    simp only [ctlNext, hne, Bool.false_eq_true, if_false]
+    exact hro
+  generalize d.snrPrep.withCtl (ctlNext d.ctl (d.ctlIn true)) = q at hopen
+  unfold Bot.snrFinish
+  split
+  · simp
+  · have hg : q.generateNextRow = ({ q with row := q.openingRow }, []) := by
+      unfold Bot.generateNextRow; simp [hopen]
+    rw [hg]
+    simp only [List.any_nil, Bool.false_eq_true, if_false, List.append_nil, List.nil_append]
+    intro hm
+    unfold Bot.expectAll at hm
+    simp only [List.mem_map] at hm
+    obtain ⟨p, _, hp⟩ := hm
+    cases hp
+
+/-- While the tower has bells, the opening row and rounds are not empty, and while Wheatley is ringing the place
+indexes the row. -/
+def RInv (b : Bot) : Prop :=
+  b.tower.bellState ≠ [] ∧ b.openingRow ≠ [] ∧ b.rounds ≠ [] ∧ PlaceInv b
+
+theorem lookTo_rinv (b : Bot) (h : RInv b) : RInv b.lookTo.1 ∧ ∀ e, Out.crash e ∉ b.lookTo.2 := by
+  obtain ⟨ht, ho, hr, hp⟩ := h
+  obtain ⟨treble, rest, hop⟩ := List.exists_cons_of_ne_nil ho
+  have hplace := look_to_place b treble rest hop hr
+  unfold Bot.lookTo at hplace ⊢
+  simp only [hop] at hplace ⊢
+  have hnc := arm_start_no_crash b
+  obtain ⟨f1, f2, f3⟩ := startNextRow_rows b.armLookTo true
+  refine ⟨⟨?_, ?_, ?_, ?_⟩, ?_⟩
+  · rw [f3]; exact ht
+  · rw [f1]; show b.openingRow ≠ []; rw [hop]; simp
+  · rw [f2]; exact hr
+  · rcases hplace with h1 | ⟨e, he⟩
+    · exact h1
+    · exfalso
+      simp only [List.cons_append, List.nil_append, List.mem_cons] at he
+      rcases he with he | he | he
+      · cases he
+      · cases he
+      · exact hnc e he
+  · intro e he
+    simp only [List.cons_append, List.nil_append, List.mem_cons] at he
+    rcases he with he | he | he
+    · cases he
+    · cases he
+    · exact hnc e he
+
+theorem onSizeChange_rinv (b : Bot) (h : RInv b) : RInv b.onSizeChange.1 := by
+  obtain ⟨ht, ho, hr, hp⟩ := h
+  have hpl := size_change_keeps_place b hp
+  have hn : 0 < b.n := by
+    unfold Bot.n Tower.size
+    exact List.length_pos_iff.mpr ht
+  cases hs : startingRow b.n b.gen.customStart with
+  | none =>
+    have : b.onSizeChange = (b, [.crash "ValueError"]) := by unfold Bot.onSizeChange; simp [hs]
+    rw [this]
+    exact ⟨ht, ho, hr, hp⟩
+  | some op =>
+    obtain ⟨h1, h2⟩ := size_change_rows b hn op hs
+    refine ⟨?_, h1, h2, hpl⟩
+    unfold Bot.onSizeChange
+    simp only [hs]
+    exact ht
+
+/-- Messages whose view of the tower is not empty: strikes and states carry at least one bell, sizes are
+positive. -/
+def Sane : Ev → Prop
+  | .msg (.bellRung st _) => st ≠ []
+  | .msg (.globalState st) => st ≠ []
+  | .msg (.sizeChange n) => 0 < n
+  | _ => True
+
+/-- Every handler keeps the invariant (for sane messages). -/
+theorem onMsg_rinv (b : Bot) (m : Msg) (hs : Sane (.msg m)) (h : RInv b) : RInv (b.onMsg m).1 := by
+  obtain ⟨ht, ho, hr, hp⟩ := h
+  have keep : ∀ b' : Bot, b'.tower.bellState ≠ [] → b'.openingRow = b.openingRow → b'.rounds = b.rounds →
+      b'.isRinging = b.isRinging → b'.place = b.place → b'.row = b.row → RInv b' := by
+    intro b' h1 h2 h3 h4 h5 h6
+    refine ⟨h1, by rw [h2]; exact ho, by rw [h3]; exact hr, ?_⟩
+    intro hri
+    rw [h5, h6]
+    exact hp (by rw [← h4]; exact hri)
+  have keepF : ∀ b' : Bot, b'.tower.bellState ≠ [] → b'.openingRow = b.openingRow → b'.rounds = b.rounds →
+      b'.isRinging = false → RInv b' := by
+    intro b' h1 h2 h3 h4
+    refine ⟨h1, by rw [h2]; exact ho, by rw [h3]; exact hr, ?_⟩
+    intro hri; rw [h4] at hri; cases hri
+  unfold Bot.onMsg
+  simp only []
+  cases m with
+  | bellRung st who =>
+    have hst : st ≠ [] := hs
+    simp only []
+    split
+    · exact keep _ hst rfl rfl rfl rfl rfl
+    · split <;> exact keep _ hst rfl rfl rfl rfl rfl
+  | globalState st =>
+    have hst : st ≠ [] := hs
+    exact onSizeChange_rinv _ (keep _ hst rfl rfl rfl rfl rfl)
+  | sizeChange n =>
+    have hn : 0 < n := hs
+    have htw : (b.tower.apply (.sizeChange n)).bellState ≠ [] := by
+      simp only [Tower.apply]
+      split
+      · simp only []
+        intro e
+        have h0 : (List.replicate n true).length = 0 := by rw [e]; rfl
+        rw [List.length_replicate] at h0
+        omega
+      · exact ht
+    simp only []
+    split
+    · exact onSizeChange_rinv _ (keep _ htw rfl rfl rfl rfl rfl)
+    · exact keep _ htw rfl rfl rfl rfl rfl
+  | call c =>
+    have hq : RInv ({ b with tower := b.tower.apply (.call c) } : Bot) := keep _ ht rfl rfl rfl rfl rfl
+    simp only [Bot.onCall]
+    split
+    · unfold Bot.onLookTo
+      split
+      · exact (lookTo_rinv _ hq).1
+      · exact hq
+    · split
+      · unfold Bot.onGo
+        split
+        · exact keep _ ht rfl rfl rfl rfl rfl
+        · exact hq
+      · repeat' split
+        all_goals exact keep _ ht rfl rfl rfl rfl rfl
+  | setting kvs =>
+    simp only []
+    have : ∀ (l : List (String × SVal)) (b' : Bot), RInv b' → RInv (foldSettings b' l).1 := by
+      intro l
+      induction l with
+      | nil => intro b' hb'; exact hb'
+      | cons kv rest ih =>
+        intro b' hb'
+        obtain ⟨k, v⟩ := kv
+        simp only [foldSettings]
+        apply ih
+        simp only [Bot.onSetting]
+        repeat' split
+        all_goals exact hb'
+    split
+    · exact this kvs _ (keep _ ht rfl rfl rfl rfl rfl)
+    · exact keep _ ht rfl rfl rfl rfl rfl
+  | rowGen g =>
+    simp only []
+    split
+    · split <;> exact keep _ ht rfl rfl rfl rfl rfl
+    · exact keep _ ht rfl rfl rfl rfl rfl
+  | stopTouch =>
+    simp only []
+    split
+    · exact keepF _ ht rfl rfl rfl
+    · exact keep _ ht rfl rfl rfl rfl rfl
+  | userEntered _ _ => exact keep _ ht rfl rfl rfl rfl rfl
+  | userList _ => exact keep _ ht rfl rfl rfl rfl rfl
+  | assign _ _ =>
+    refine keep _ ?_ rfl rfl rfl rfl rfl
+    show (b.tower.apply _).bellState ≠ []
+    simp only [Tower.apply]
+    split <;> exact ht
+  | userLeft _ => exact keep _ ht rfl rfl rfl rfl rfl
+
+theorem no_index_crash (outs : List Out) (h : Out.crash "IndexError" ∉ outs) :
+    outs.findSome? isCrash ≠ some "IndexError" := by
+  induction outs with
+  | nil => simp
+  | cons o rest ih =>
+    simp only [List.mem_cons, not_or] at h
+    rw [List.findSome?_cons]
+    cases o with
+    | crash e =>
+      simp only [isCrash]
+      intro he
+      simp only [Option.some.injEq] at he
+      subst he
+      exact h.1 rfl
+    | _ => simp only [isCrash]; exact ih h.2
+
+theorem no_crash_none (outs : List Out) (h : ∀ e, Out.crash e ∉ outs) : outs.findSome? isCrash = none := by
+  induction outs with
+  | nil => rfl
+  | cons o rest ih =>
+    rw [List.findSome?_cons]
+    cases o with
+    | crash e => exact absurd (List.mem_cons_self) (h e)
+    | _ => simp only [isCrash]; exact ih (fun e he => h e (List.mem_cons_of_mem _ he))
+
+/-- The invariant of the whole world: the main thread has not died of `IndexError`, and as long as it is alive the
+Bot's rows and place are in order. -/
+def WInv2 (w : World K) : Prop := w.crashed ≠ some "IndexError" ∧ (w.pc ≠ .done → RInv w.bot)
+
+theorem foldl_inv2 (wt : K → K) (ct : K) (outs : List Out) (w : World K) (h : WInv2 w) :
+    WInv2 (outs.foldl (World.applyOut wt ct) w) := by
+  obtain ⟨f1, f2⟩ := foldl_applyOut_bot_crashed wt ct outs w
+  unfold WInv2
+  rw [f1, f2, foldl_applyOut_pc]
+  exact h
+
+theorem finishTick_inv2 (wt : K → K) (w : World K) (bell : Nat) (uc : Bool) (hr : RInv w.bot)
+    (hc : w.crashed ≠ some "IndexError") : WInv2 (w.finishTick wt bell uc).1 := by
+  unfold World.finishTick
+  simp only []
+  obtain ⟨ht, ho, hrr, hp⟩ := hr
+  obtain ⟨r1, r2, r3⟩ := tickEnd_rows w.bot bell uc
+  have hni := tickEnd_no_index w.bot bell uc
+  have hplace := turn_keeps_place w.bot bell uc ho hrr
+  obtain ⟨fb, fc⟩ := foldl_applyOut_bot_crashed wt w.now (w.bot.tickEnd bell uc).2
+    ({ w with bot := (w.bot.tickEnd bell uc).1 } : World K)
+  split
+  · rename_i e he
+    refine ⟨?_, ?_⟩
+    · show some e ≠ some "IndexError"
+      intro h'
+      rw [h'] at he
+      exact no_index_crash _ hni he
+    · intro hpc; exact absurd rfl hpc
+  · rename_i hnone
+    have hpl : PlaceInv (w.bot.tickEnd bell uc).1 := by
+      rcases hplace with h1 | ⟨e, he⟩
+      · exact h1
+      · exfalso
+        have := List.findSome?_eq_none_iff.mp hnone _ he
+        simp [isCrash] at this
+    have hR : RInv (List.foldl (World.applyOut wt w.now) ({ w with bot := (w.bot.tickEnd bell uc).1 } : World K)
+        (w.bot.tickEnd bell uc).2).bot := by
+      rw [fb]
+      exact ⟨by rw [r3]; exact ht, by rw [r1]; exact ho, by rw [r2]; exact hrr, hpl⟩
+    have hC : (List.foldl (World.applyOut wt w.now) ({ w with bot := (w.bot.tickEnd bell uc).1 } : World K)
+        (w.bot.tickEnd bell uc).2).crashed ≠ some "IndexError" := by
+      rw [fc]; exact hc
+    exact ⟨hC, fun _ => hR⟩
+
+theorem afterInner_inv2 (wt : K → K) (w : World K) (bell : Nat) (uc hand : Bool) (d : K) (js : Bool)
+    (hr : RInv w.bot) (hc : w.crashed ≠ some "IndexError") (hpc : w.pc ≠ .done) :
+    WInv2 (w.afterInner wt bell uc hand d js).1 := by
+  unfold World.afterInner
+  split
+  · split
+    · simp only []
+      split
+      · exact finishTick_inv2 wt _ bell uc hr hc
+      · exact ⟨hc, fun _ => hr⟩
+    · exact finishTick_inv2 wt _ bell uc hr hc
+  · exact finishTick_inv2 wt w bell uc hr hc
+
+theorem beginWait_bot_crashed (w : World K) (bell : Nat) (uc hand : Bool) :
+    (w.beginWait bell uc hand).1.bot = w.bot ∧ (w.beginWait bell uc hand).1.crashed = w.crashed := by
+  unfold World.beginWait
+  split
+  · exact ⟨rfl, rfl⟩
+  · simp only []
+    split <;> (split <;> exact ⟨rfl, rfl⟩)
+
+/-- One step of the main thread keeps the invariant. -/
+theorem mainStep_inv2 (wt : K → K) (w : World K) (h : WInv2 w) : WInv2 (w.mainStep wt).1 := by
+  by_cases hd : w.pc = .done
+  · unfold World.mainStep
+    simp only [hd]
+    exact h
+  have hr := h.2 hd
+  have hc := h.1
+  unfold World.mainStep
+  split
+  · exact h
+  · -- waitLoaded
+    split
+    · split
+      · split
+        · simp only []
+          obtain ⟨hb, hnc⟩ := lookTo_rinv w.bot hr
+          have hnone := no_crash_none _ hnc
+          split
+          · rename_i e he; rw [hnone] at he; cases he
+          · refine ⟨?_, fun _ => ?_⟩
+            · dsimp only
+              rw [(foldl_applyOut_bot_crashed wt _ _ _).2]
+              exact hc
+            · dsimp only
+              rw [(foldl_applyOut_bot_crashed wt _ _ _).1]
+              exact hb
+        · exact ⟨hc, fun _ => hr⟩
+      · exact ⟨hc, fun _ => hr⟩
+    · exact ⟨by show some "SocketIOClientError" ≠ _; decide, fun hp => absurd rfl hp⟩
+  · exact ⟨hc, fun _ => hr⟩
+  · -- idleCheck
+    split
+    · exact ⟨hc, fun _ => hr⟩
+    · exact foldl_inv2 wt w.now _ { w with pc := .ringCheck } ⟨hc, fun _ => hr⟩
+  · split
+    · exact ⟨hc, fun hp => absurd rfl hp⟩
+    · exact ⟨hc, fun _ => hr⟩
+  · -- ringCheck
+    split
+    · rename_i hring
+      split
+      · rename_i hnone
+        exact absurd hnone (turn_begins w.bot hr.2.2.2 hring)
+      · refine ⟨?_, fun _ => ?_⟩
+        · dsimp only
+          rw [(beginWait_bot_crashed w _ _ _).2]
+          exact hc
+        · dsimp only
+          rw [(beginWait_bot_crashed w _ _ _).1]
+          exact hr
+    · exact foldl_inv2 wt w.now _ { w with pc := .outerTop } ⟨hc, fun _ => hr⟩
+  · split
+    · exact ⟨hc, fun _ => hr⟩
+    · exact afterInner_inv2 wt w _ _ _ _ _ hr hc hd
+  · apply afterInner_inv2
+    · split <;> exact hr
+    · split <;> exact hc
+    · split <;> exact hd
+  · exact afterInner_inv2 wt w _ _ _ _ _ hr hc hd
+  · exact ⟨hc, fun _ => hr⟩
+
+/-- The delivery of any sane event keeps the invariant. -/
+theorem deliver_inv2 (wt : K → K) (w : World K) (e : Ev) (hs : Sane e) (h : WInv2 w) : WInv2 (World.deliver wt w e) := by
+  obtain ⟨dp, _⟩ := deliver_never_rings wt w e
+  by_cases hd : w.pc = .done
+  · -- the main thread is over: only "has not died of IndexError" is left to keep
+    refine ⟨?_, fun hp => absurd (dp.trans hd) hp⟩
+    have hc := h.1
+    cases e with
+    | resume =>
+      unfold World.deliver
+      simp only []
+      split
+      · unfold World.lookToResume World.lookToRest
+        simp only []
+        have hin : ∀ s, (World.lookToInner ({ w with suspended := none } : World K) s).crashed = w.crashed := by
+          intro s
+          unfold World.lookToInner
+          split
+          · exact withReg_crashed _ _
+          · rfl
+        split
+        · dsimp only; rw [(foldl_applyOut_bot_crashed wt _ _ _).2]; dsimp only; rw [hin]; exact hc
+        · rw [(foldl_applyOut_bot_crashed wt _ _ _).2]; dsimp only; rw [hin]; exact hc
+      · exact hc
+    | msg m =>
+      unfold World.deliver
+      simp only []
+      split
+      · unfold World.lookToBegin; exact hc
+      · unfold World.deliverMsg
+        simp only []
+        split
+        · dsimp only; rw [(foldl_applyOut_bot_crashed wt _ _ _).2]; exact hc
+        · rw [(foldl_applyOut_bot_crashed wt _ _ _).2]; exact hc
+  have hr := h.2 hd
+  have hc := h.1
+  cases e with
+  | resume =>
+    unfold World.deliver
+    simp only []
+    split
+    · rename_i s _
+      unfold World.lookToResume World.lookToRest
+      simp only []
+      have hin : (World.lookToInner ({ w with suspended := none } : World K) s).bot = w.bot ∧
+          (World.lookToInner ({ w with suspended := none } : World K) s).crashed = w.crashed := by
+        unfold World.lookToInner
+        split
+        · obtain ⟨_, _, h3⟩ := withReg_pc_obs ({ w with suspended := none } : World K) _
+          exact ⟨h3, withReg_crashed _ _⟩
+        · exact ⟨rfl, rfl⟩
+      generalize World.lookToInner ({ w with suspended := none } : World K) s = wi at hin
+      have hri : RInv wi.bot := by rw [hin.1]; exact hr
+      obtain ⟨ht, ho, hrr, hp⟩ := hri
+      obtain ⟨treble, rest, hop⟩ := List.exists_cons_of_ne_nil ho
+      have hl := lookTo_rinv wi.bot ⟨ht, ho, hrr, hp⟩
+      have hlt : wi.bot.lookTo.1 = (wi.bot.armLookTo.startNextRow true).1 := by
+        unfold Bot.lookTo; simp only [hop]
+      have hR : RInv (wi.bot.armLookTo.startNextRow true).1 := by rw [← hlt]; exact hl.1
+      refine ⟨?_, fun _ => ?_⟩
+      · split
+        · dsimp only; rw [(foldl_applyOut_bot_crashed wt _ _ _).2]; dsimp only; rw [hin.2]; exact hc
+        · rw [(foldl_applyOut_bot_crashed wt _ _ _).2]; dsimp only; rw [hin.2]; exact hc
+      · split
+        · dsimp only; rw [(foldl_applyOut_bot_crashed wt _ _ _).1]; exact hR
+        · rw [(foldl_applyOut_bot_crashed wt _ _ _).1]; exact hR
+    · exact h
+  | msg m =>
+    unfold World.deliver
+    simp only []
+    split
+    · unfold World.lookToBegin
+      exact ⟨hc, fun _ => hr⟩
+    · unfold World.deliverMsg
+      simp only []
+      have hb := onMsg_rinv w.bot m hs hr
+      refine ⟨?_, fun _ => ?_⟩
+      · split
+        · dsimp only; rw [(foldl_applyOut_bot_crashed wt _ _ _).2]; exact hc
+        · rw [(foldl_applyOut_bot_crashed wt _ _ _).2]; exact hc
+      · split
+        · dsimp only; rw [(foldl_applyOut_bot_crashed wt _ _ _).1]; exact hb
+        · rw [(foldl_applyOut_bot_crashed wt _ _ _).1]; exact hb
+
+theorem sleep_go_inv2 (wt : K → K) (limit : K) :
+    ∀ (events : List (K × Ev)) (w : World K), (∀ ev ∈ events, Sane ev.2) → WInv2 w →
+      WInv2 (World.sleep.go wt limit w events).1 ∧ (∀ ev ∈ (World.sleep.go wt limit w events).2, Sane ev.2) := by
+  intro events
+  induction events with
+  | nil => intro w _ h; exact ⟨h, by intro ev hev; cases hev⟩
+  | cons ev rest ih =>
+    intro w hs h
+    obtain ⟨t, m⟩ := ev
+    unfold World.sleep.go
+    split
+    · apply ih _ (fun ev' h' => hs ev' (by simp [h']))
+      apply deliver_inv2 wt _ m (hs (t, m) (by simp))
+      split
+      · exact h
+      · exact h
+    · exact ⟨h, hs⟩
+
+theorem sleep_inv2 (wt : K → K) (endTime : K) (w : World K) (d : K) (events : List (K × Ev))
+    (hs : ∀ ev ∈ events, Sane ev.2) (h : WInv2 w) :
+    WInv2 (World.sleep wt endTime w d events).1 ∧ (∀ ev ∈ (World.sleep wt endTime w d events).2.1, Sane ev.2) := by
+  unfold World.sleep
+  simp only []
+  split
+  · exact sleep_go_inv2 wt endTime events w hs h
+  · obtain ⟨h1, h2⟩ := sleep_go_inv2 wt (w.now + d) events w hs h
+    exact ⟨⟨h1.1, h1.2⟩, h2⟩
+
+/-- Every state the world can reach from a state with the tower loaded - any number of steps, any sane events at
+any times - satisfies the invariant. -/
+theorem run_inv2 (wt : K → K) (endTime : K) :
+    ∀ (fuel : Nat) (w : World K) (events : List (K × Ev)), (∀ ev ∈ events, Sane ev.2) → WInv2 w →
+      WInv2 (World.run wt endTime fuel w events).1 := by
+  intro fuel
+  induction fuel with
+  | zero => intro w events _ h; exact h
+  | succ fuel ih =>
+    intro w events hs h
+    unfold World.run
+    have hm := mainStep_inv2 wt w h
+    split
+    · rename_i w1 heq; rw [heq] at hm; exact hm
+    · rename_i w1 heq; rw [heq] at hm; exact ih w1 events hs hm
+    · rename_i w1 d heq
+      rw [heq] at hm
+      obtain ⟨hsl, hsq⟩ := sleep_inv2 wt endTime w1 d events hs hm
+      simp only []
+      split
+      · exact hsl
+      · exact ih _ _ hsq hsl
+
+/-- **`tick()` never indexes past the row**: once the tower's state has arrived (which is when `main_loop` starts:
+`wait_loaded`), deliver any messages whatsoever, at any times, for as long as you like - as long as they describe a
+tower that has bells (states and strikes carry at least one bell, sizes are positive): size changes in the middle of
+a row, Look To during a touch, selections, Stop Touch, anything.  The main thread does not die of `IndexError`. -/
+theorem never_indexes_past_the_row (wt : K → K) (endTime : K) (fuel : Nat) (w : World K) (events : List (K × Ev))
+    (hs : ∀ ev ∈ events, Sane ev.2) (hr : RInv w.bot) (hc : w.crashed ≠ some "IndexError") :
+    (World.run wt endTime fuel w events).1.crashed ≠ some "IndexError" :=
+  (run_inv2 wt endTime fuel w events hs ⟨hc, fun _ => hr⟩).1
+
+/-- The hypothesis is what the first global state establishes: a freshly built Bot that has received a non-empty
+`s_global_state` (its start row free of repeated bells, as every constructor guarantees) satisfies `RInv`. -/
+theorem loaded_ok (g : Gen) (u s c : Bool) (n : Option String) (id : Option Nat) (st : List Bool) (hst : st ≠ [])
+    (hg : ∀ cs, g.customStart = some cs → hasDup cs = false) :
+    RInv ((Bot.init g u s c n id).onMsg (.globalState st)).1 := by
+  unfold Bot.onMsg
+  simp only []
+  generalize hq : ({ Bot.init g u s c n id with
+    tower := (Bot.init g u s c n id).tower.apply (.globalState st) } : Bot) = q
+  have hq1 : q.tower.bellState = st := by subst hq; rfl
+  have hq2 : q.gen.customStart = g.customStart := by subst hq; rfl
+  have hq3 : q.isRinging = false := by subst hq; rfl
+  have hn : 0 < q.n := by
+    unfold Bot.n Tower.size
+    rw [hq1]
+    exact List.length_pos_iff.mpr hst
+  obtain ⟨op, hop⟩ : ∃ op, startingRow q.n q.gen.customStart = some op := by
+    rw [hq2]
+    unfold startingRow
+    cases hcs : g.customStart with
+    | none => exact ⟨_, rfl⟩
+    | some cs => simp [hg cs hcs]
+  obtain ⟨h1, h2⟩ := size_change_rows q hn op hop
+  refine ⟨?_, h1, h2, ?_⟩
+  · unfold Bot.onSizeChange
+    simp only [hop]
+    rw [hq1]; exact hst
+  · intro hri
+    unfold Bot.onSizeChange at hri
+    simp only [hop] at hri
+    rw [hq3] at hri
+    cases hri
+
+end NoIndexError
+
 end Wheatley.C10
